@@ -22,6 +22,8 @@ const modulePath = "github.com/aptpod/iscp-go"
 func parserParseExpr(s string) (ast.Expr, error) { return parser.ParseExpr(s) }
 
 type Engine struct {
+	extIface map[string]*FuncContract // assumed contracts of interfaces declared outside the module
+
 	repo       string
 	prog       *ssa.Program
 	pkgs       []*packages.Package
@@ -103,6 +105,17 @@ func LoadEngine(repo string) (*Engine, error) {
 					return e, err
 				}
 				e.contracts[sp.Pkg.Path()] = pc
+				for k, fc := range pc.Funcs {
+					if fc.IsIface && strings.Count(k, ".") == 2 {
+						if e.extIface == nil {
+							e.extIface = map[string]*FuncContract{}
+						}
+						if _, dup := e.extIface[k]; dup {
+							return e, fmt.Errorf("%s: duplicate external interface contract %s", pc.File, k)
+						}
+						e.extIface[k] = fc
+					}
+				}
 			}
 		}
 	}
@@ -217,15 +230,14 @@ func (e *Engine) ifaceContract(c *ssa.CallCommon) *FuncContract {
 	if n == nil || n.Obj().Pkg() == nil {
 		return nil
 	}
-	pc := e.contracts[n.Obj().Pkg().Path()]
-	if pc == nil {
-		return nil
+	if pc := e.contracts[n.Obj().Pkg().Path()]; pc != nil {
+		fc := pc.Funcs[n.Obj().Name()+"."+c.Method.Name()]
+		if fc != nil && fc.IsIface {
+			return fc
+		}
 	}
-	fc := pc.Funcs[n.Obj().Name()+"."+c.Method.Name()]
-	if fc != nil && fc.IsIface {
-		return fc
-	}
-	return nil
+	// assumed contract of an interface declared outside the module (`iface io.Writer.Write` in any sidecar)
+	return e.extIface[n.Obj().Pkg().Name()+"."+n.Obj().Name()+"."+c.Method.Name()]
 }
 
 func (e *Engine) findGhost(p *ssa.Package, name string) *GhostFunc {
